@@ -119,23 +119,31 @@ def _b(x):
     return x if isinstance(x, bytes) else x.encode("utf8", "surrogateescape")
 
 
-def key_line(o, f):
-    """protocol line for the Lean `keyOf`: the request fields as the library parsers deliver them"""
+def opts_fields(o):
+    bits = "".join("1" if o[k] else "0" for k in ("ignore_content", "ignore_host", "ignore_port"))
+    names = lambda l: ",".join(eb(_b(x)) for x in l) if l else "-"
+    return [bits, names(o["ignore_params"]), names(o["ignore_payload_params"]), names(o["use_headers"])]
+
+
+def req_fields(f):
+    """the request parts as the library parsers deliver them (urlparse / parse_qsl / multipart / urlencoded / Headers)"""
     r = f.request
     _, _, path, _, query, _ = urllib.parse.urlparse(r.url)
     qs = urllib.parse.parse_qsl(query, keep_blank_values=True)
-    bits = "".join("1" if o[k] else "0" for k in ("ignore_content", "ignore_host", "ignore_port"))
-    names = lambda l: ",".join(eb(_b(x)) for x in l) if l else "-"
     hdrs = []
     for k in dict.fromkeys(k.lower() for k in r.headers.keys()):
         hdrs.append((_b(k), _b(r.headers.get(k))))
-    return " ".join(["key", bits, names(o["ignore_params"]), names(o["ignore_payload_params"]), names(o["use_headers"]),
-                     eb(_b(str(r.scheme))), eb(_b(str(r.method))), eb(_b(str(path))),
-                     epairs([(_b(k), _b(v)) for k, v in qs]), eb(_b(r.pretty_host)), str(r.port),
-                     "N" if r.raw_content is None else eb(r.raw_content),
-                     epairs(list(r.multipart_form.items(multi=True))),
-                     epairs([(_b(k), _b(v)) for k, v in r.urlencoded_form.items(multi=True)]),
-                     epairs(hdrs)])
+    return [eb(_b(str(r.scheme))), eb(_b(str(r.method))), eb(_b(str(path))),
+            epairs([(_b(k), _b(v)) for k, v in qs]), eb(_b(r.pretty_host)), str(r.port),
+            "N" if r.raw_content is None else eb(r.raw_content),
+            epairs(list(r.multipart_form.items(multi=True))),
+            epairs([(_b(k), _b(v)) for k, v in r.urlencoded_form.items(multi=True)]),
+            epairs(hdrs)]
+
+
+def key_line(o, f):
+    """protocol line for the Lean `keyOf`"""
+    return " ".join(["key"] + opts_fields(o) + req_fields(f))
 
 
 class Check(PropertyCheck):
@@ -423,25 +431,38 @@ class Check(PropertyCheck):
                 return [key_line(case["o"], build_request(case["a"])), key_line(case["o"], build_request(case["b"]))]
         table = self._table(case)
         rl = lambda l: ",".join(f"{i}:{case['recs'][i]['req']}:{int(case['recs'][i]['resp'])}:{int(case['recs'][i]['http'])}" for i in l) if l else "-"
-        lines = ["reset " + ";".join(",".join(map(str, row)) for row in table) + " 0"]
-        for ev in case["events"]:
-            k = ev[0]
-            if k in ("load", "add"): lines.append(f"{k} {rl(ev[1])}")
-            elif k == "clear": lines.append("clear")
-            elif k == "conf": lines.append(f"conf {ev[1]}")
-            else:
-                c = ev[2]
-                lines.append(f"req {ev[1]} {int(c['reuse'])} {int(c['nopop'])} {int(c['kill_extra'])} {c['extra']}")
-        return lines
+        def events(pre):
+            out = []
+            for ev in case["events"]:
+                k = ev[0]
+                if k in ("load", "add"): out.append(f"{pre}{k} {rl(ev[1])}")
+                elif k == "clear": out.append(pre + "clear")
+                elif k == "conf": out.append(f"{pre}conf {ev[1]}")
+                else:
+                    c = ev[2]
+                    out.append(f"{pre}req {ev[1]} {int(c['reuse'])} {int(c['nopop'])} {int(c['kill_extra'])} {c['extra']}")
+            return out
+        # (1) the flowmap logic with the equality classes of the real _hash as the key function
+        lines = ["reset " + ";".join(",".join(map(str, row)) for row in table) + " 0"] + events("")
+        # (2) the same history with the model's own key function keyOf on the parsed request parts: the model
+        #     predicts which requests match instead of being told
+        lines.append("kreset")
+        lines += ["kopt " + " ".join(opts_fields(o)) for o in case["opts"]]
+        lines += ["kdef " + " ".join(req_fields(build_request(rq))) for rq in case["reqs"]]
+        lines.append("kstart 0")
+        return lines + events("k")
 
     def model_obs(self, case, replies):
         if case["kind"] == "pair": return {"eq": replies[0] == replies[1], "ok": "bad-op" not in replies}
-        return replies[1:]
+        n = len(case["events"])
+        setup = replies[1 + n:len(replies) - n]
+        return {"table": replies[1:1 + n], "keyOf": replies[len(replies) - n:], "setup-ok": all(r == "ok" for r in setup)}
 
     def impl_view(self, case, obs):
         if "__exc__" in obs: return obs
         if case["kind"] == "pair": return {"eq": obs["eq"], "ok": True}
-        return obs["out"]
+        if len(obs["out"]) < len(case["events"]): return {"raised": obs["out"]}
+        return {"table": obs["out"], "keyOf": obs["out"], "setup-ok": True}
 
     def classify(self, case, obs):
         if "__exc__" in obs: return None
